@@ -19,7 +19,7 @@ ASSUMPTIONS = [
     'lenient-parser tokens (NaN, Infinity), duplicate members and over-limit integer literals are judged by C01 only',
     'protocol errors that pjrpc refuses to construct (reported by the probe) are skipped here and judged by C05',
 ]
-SHARDS = {'quick': 4, 'thorough': 16}
+SHARDS = {'quick': 8, 'thorough': 16}
 TIMEOUT = {'quick': 300, 'thorough': 1800}
 ANCHORS = [
     ('pjrpc/server/dispatcher.py', 'Dispatcher._handle_rpc_method'),
@@ -33,7 +33,7 @@ ANCHORS = [
 _ROWS = ['not-json', 'invalid-request', 'batch-empty', 'batch-invalid-element', 'batch-duplicate-ids', 'batch-too-large',
          'unknown-method', 'unbound', 'rpc-error', 'exception']
 FLOORS = {'*': {f'row:{k}:{r}': (3 if r == 'batch-empty' else 5) for k in ('sync', 'async') for r in _ROWS} | {
-    'exc:TypeError-in-body': 2, 'as:notification': 50, 'as:batch-element': 50, 'as:call': 200,
+    'exc:TypeError-in-body': 2, 'flavour:async-plain': 300, 'flavour:sync-inert': 300, 'flavour:async-inert': 300, 'as:notification': 50, 'as:batch-element': 50, 'as:call': 200,
     'rpc:data-null': 5, 'rpc:data-absent': 5, 'rpc:message-empty': 1, 'rpc:code-0': 1,
 }}
 
@@ -57,6 +57,9 @@ def gen(ctx):
             cfgs += [(False, 1), (True, 1), (False, 3), (True, 3)]
         for is_async, m in cfgs:
             yield 'doc', {'family': family, 'text': text, 'is_async': is_async, 'max_batch': m}
+        if k % 3 == 0:
+            fl = serverside.EXTRA_FLAVOURS[(k // 3) % 3]
+            yield 'doc', {'family': family, 'text': text, 'is_async': fl.startswith('async'), 'max_batch': None, 'flavour': fl}
 
     # every failure kind as call, as notification and inside batches
     for fam, method, params in docs.typed_calls(rng, True):
@@ -79,13 +82,15 @@ def gen(ctx):
         yield from emit(fam, text)
 
 
-def run_doc(ctx, family, text, is_async, max_batch):
+def run_doc(ctx, family, text, is_async, max_batch, flavour=None):
     info = serverside.TextInfo(text)
     kind = 'async' if is_async else 'sync'
     if info.gap or info.bigint or info.dupkeys:
         ctx.unjudge('not-judged-here:' + info.features)
         return
-    w = serverside.get_world(is_async, max_batch)
+    w = serverside.world_for(flavour, max_batch) if flavour else serverside.get_world(is_async, max_batch)
+    if flavour:
+        ctx.hit('flavour:' + flavour)
     o = serverside.observe(w, text)
     if o.ctor_failed:
         ctx.skip('probe-could-not-construct-protocol-error:' + o.ctor_failed[0])
@@ -94,7 +99,7 @@ def run_doc(ctx, family, text, is_async, max_batch):
     if max_batch == 0 and isinstance(info.doc, list):
         ctx.unjudge('max_batch_size=0')
         return
-    cls = (kind, text)
+    cls = (flavour or kind, text)
     base = exp.kind.split(':')[0]
     rows = set()
     if base in ('not-json', 'invalid-request', 'batch-empty', 'batch-invalid-element', 'batch-duplicate-ids', 'batch-too-large'):
@@ -126,7 +131,7 @@ def run_doc(ctx, family, text, is_async, max_batch):
                                             'returned': o.raw if o.raw is None else o.text})
         return
     aspect, detail = mine[0]
-    ctx.violation(f'{aspect}:{detail}', family, cls, text=text, dispatcher=kind, max_batch_size=max_batch,
+    ctx.violation(f'{aspect}:{detail}', family, cls, text=text, dispatcher=flavour or kind, max_batch_size=max_batch,
                   expected=model.render(exp.response), model_kind=exp.kind, returned=o.raw, exception=o.exc,
                   executions=o.calls, all_differences=mine)
 
